@@ -37,6 +37,7 @@ type mcase struct {
 	BodyHex string `json:"body_hex,omitempty"`
 	Gen     string `json:"gen,omitempty"` // ff | nul | sp | mix
 	N       int    `json:"n,omitempty"`
+	Cred    string `json:"cred,omitempty"` // layer routes with auth basic / hmac: "" = valid credentials, "bad" = wrong secret, "none" = no credentials sent
 	Opt     bool   `json:"opt,omitempty"` // a header value that cannot travel in an HTTP header field (C0 control, DEL): the way in may refuse it
 	ID      string `json:"id,omitempty"`  // explicit message id (bounded-queue histories: an id that is already in the queue)
 }
@@ -77,7 +78,18 @@ func maxBodyOf(route string) int {
 	if route == "small" {
 		return 8
 	}
+	if ly := layerOf(route); ly != nil && ly.MaxBody > 0 {
+		return ly.MaxBody
+	}
 	return defaultMaxBody
+}
+
+// bodyLen is len(c.body()) without building the body.
+func (c mcase) bodyLen() int {
+	if c.Gen != "" {
+		return c.N
+	}
+	return len(c.BodyHex) / 2
 }
 
 // refAccept: is the body within the route's max_body?
@@ -103,7 +115,61 @@ func canon(name string) string {
 }
 
 var sensitive = map[string]bool{"Authorization": true, "Proxy-Authorization": true, "Cookie": true}
-var framing = map[string]bool{"Host": true, "Content-Length": true, "Transfer-Encoding": true}
+var framing = map[string]bool{"Host": true, "Content-Length": true, "Transfer-Encoding": true, "Trailer": true}
+
+// frames of an ingress request: Content-Length, chunked, chunked with a declared trailer field
+const (
+	frameTrailer = "chunked-trailer"
+	trailerField = "X-Trailer-Field"
+	trailerValue = "tv"
+	ingressHost  = "hooks.test"
+)
+
+// receivedFraming is the framing part of the received header section, as a function of the case alone.
+func receivedFraming(c mcase) map[string]string {
+	out := map[string]string{"Host": ingressHost}
+	switch c.Frame {
+	case "cl":
+		out["Content-Length"] = fmt.Sprint(c.bodyLen())
+	case "chunked":
+		out["Transfer-Encoding"] = "chunked"
+	case frameTrailer:
+		out["Transfer-Encoding"] = "chunked"
+		out["Trailer"] = trailerField
+	}
+	return out
+}
+
+// compareFraming: the framing headers (and a trailer field) need not be stored, but a stored one is a stored header
+// like any other: it must be the one that was received, with the received value - whatever an admission layer in
+// front of the enqueue did with its own view of the request.
+func compareFraming(c mcase, got map[string][]string) []finding {
+	if c.In != "ingress" {
+		return nil
+	}
+	recv := receivedFraming(c)
+	if c.Frame == frameTrailer {
+		recv[trailerField] = trailerValue
+	}
+	names := make([]string, 0, len(got))
+	for n := range got {
+		if framing[n] || (c.Frame == frameTrailer && n == trailerField) {
+			names = append(names, n)
+		}
+	}
+	sort.Strings(names)
+	var out []finding
+	for _, n := range names {
+		want, received := recv[n]
+		switch {
+		case !received:
+			out = append(out, finding{Key: "framing-extra:" + n, Msg: fmt.Sprintf("stored headers contain %s: %q, the request (frame %s) did not carry that header", n, got[n], c.Frame)})
+		case len(got[n]) != 1 || got[n][0] != want:
+			out = append(out, finding{Key: "framing-value:" + n, Msg: fmt.Sprintf("stored header %s is %q, the request carried %q", n, got[n], want)})
+		}
+	}
+	return out
+}
 
 // forward-auth service answer and the configured copy_headers (see dsl()).
 var fwdAnswer = []hdr{{"X-User-Id", "u-7"}, {"X-Org-Id", "o1"}, {"X-Other", "no"}}
@@ -126,8 +192,8 @@ func refHeaders(c mcase, lines []hdr) map[string]string {
 	for n, v := range vals {
 		out[n] = strings.Join(v, ",")
 	}
-	if c.In == "ingress" && c.Route == "fwd" {
-		for _, want := range fwdCopy {
+	if c.In == "ingress" {
+		for _, want := range copyHeadersOf(c.Route) {
 			for _, a := range fwdAnswer {
 				if canon(a.N) == canon(want) {
 					out[canon(want)] = a.V
@@ -235,7 +301,7 @@ func compareHeaders(c mcase, lines []hdr, got map[string][]string, exact bool) [
 		for n := range obs {
 			_, wanted := want[n]
 			_, secret := secrets[n]
-			if !wanted && !secret && !framing[n] {
+			if !wanted && !secret && !framing[n] && !(c.Frame == frameTrailer && n == trailerField) {
 				extra = append(extra, n)
 			}
 		}
@@ -248,7 +314,7 @@ func compareHeaders(c mcase, lines []hdr, got map[string][]string, exact bool) [
 	var foreign, show []string
 	for n := range obs {
 		_, wanted := want[n]
-		if wanted || framing[n] || deliverersOwn[n] {
+		if wanted || framing[n] || deliverersOwn[n] || (c.Frame == frameTrailer && n == trailerField) {
 			continue
 		}
 		if sec, ok := secrets[n]; ok && anyLeak(obs[n], sec) {
@@ -339,6 +405,16 @@ func bodyClass(c mcase, b []byte) string {
 	}
 	if c.Gen != "" {
 		f += "+" + c.Gen
+	}
+	if bl := bodyLimitOf(c.Route); bl > 0 { // forward-auth body_limit of the route
+		switch n := len(b); {
+		case n < bl:
+			f += "+<body_limit"
+		case n == bl:
+			f += "+=body_limit"
+		default:
+			f += "+>body_limit"
+		}
 	}
 	return l + f
 }
